@@ -6,6 +6,7 @@ package main
 // foreground operations. Workloads: C12 (concurrent ExecuteSQL calls).
 
 import (
+	"encoding/binary"
 	"encoding/json"
 	"fmt"
 	"os"
@@ -15,22 +16,24 @@ import (
 	"time"
 
 	"github.com/anishathalye/porcupine"
+	"github.com/ryogrid/SamehadaDB/lib/storage/disk"
+	"github.com/ryogrid/SamehadaDB/lib/types"
 	"verif/simrt"
 )
 
 type ConCfg struct {
-	Workload   string  `json:"workload"`
-	Clients    int     `json:"clients"`
-	OpsPer     int     `json:"ops_per_client"`
-	Rows       int     `json:"rows"`
-	Frames     int     `json:"frames"`
-	Policy     int     `json:"policy"`
-	StickyP    float64 `json:"sticky_p"`
-	PCTDepth   int     `json:"pct_depth"`
-	DilateP    float64 `json:"dilate_p"`
-	Background bool    `json:"background"`
-	MapPermute bool    `json:"map_permute"`
-	MaxSteps   int64   `json:"max_steps"`
+	Workload   string   `json:"workload"`
+	Clients    int      `json:"clients"`
+	OpsPer     int      `json:"ops_per_client"`
+	Rows       int      `json:"rows"`
+	Frames     int      `json:"frames"`
+	Policy     int      `json:"policy"`
+	StickyP    float64  `json:"sticky_p"`
+	PCTDepth   int      `json:"pct_depth"`
+	DilateP    float64  `json:"dilate_p"`
+	Background bool     `json:"background"`
+	MapPermute bool     `json:"map_permute"`
+	MaxSteps   int64    `json:"max_steps"`
 	Replay     []uint16 `json:"-"`
 }
 
@@ -40,7 +43,16 @@ func genConCfg(r *rng, workload string, tier string) ConCfg {
 	if r.Chance(0.15) {
 		c.Clients = 8 + r.Intn(5)
 	}
+	if workload == "c12a" || workload == "c12b" {
+		if r.Chance(0.04) {
+			// more callers than worker slots (MaxTxnThreadNum = 24): requests wait in the queue
+			c.Clients = 26 + r.Intn(14)
+		}
+	}
 	c.OpsPer = 2 + r.Intn(6)
+	if c.Clients > 20 {
+		c.OpsPer = 1 + r.Intn(2)
+	}
 	c.Rows = 3 + r.Intn(6)
 	c.Frames = []int{0, 0, 32, 64}[r.Intn(4)]
 	c.Policy = []int{simrt.PolRandom, simrt.PolSticky, simrt.PolSticky, simrt.PolPCT, simrt.PolRoundRobin}[r.Intn(5)]
@@ -49,7 +61,15 @@ func genConCfg(r *rng, workload string, tier string) ConCfg {
 	c.DilateP = []float64{0, 0, 0.001, 0.01}[r.Intn(4)]
 	c.Background = r.Chance(0.5)
 	c.MapPermute = r.Chance(0.5)
-	c.MaxSteps = 3_000_000
+	c.MaxSteps = 600_000
+	if workload == "txn" || workload == "txnwal" {
+		// short runs (about 1-3 thousand steps): PCT with change points inside the run finds
+		// orderings that need one task to be held back across another task's whole transaction
+		if r.Chance(0.5) {
+			c.Policy = simrt.PolPCT
+			c.PCTDepth = 2 + r.Intn(5)
+		}
+	}
 	if raceEnabled {
 		c.MaxSteps = 400_000
 	}
@@ -58,29 +78,29 @@ func genConCfg(r *rng, workload string, tier string) ConCfg {
 
 // one recorded client operation
 type conOp struct {
-	Client int    `json:"client"`
-	Kind   string `json:"kind"` // read | write | insert | delete
-	Lo, Hi int32  `json:"-"`
-	Token  int32  `json:"token,omitempty"`
-	SQL    string `json:"sql"`
-	Call   int64  `json:"call"`
-	Ret    int64  `json:"ret"`
-	Err    string `json:"err,omitempty"`
+	Client int     `json:"client"`
+	Kind   string  `json:"kind"` // read | write | insert | delete
+	Lo, Hi int32   `json:"-"`
+	Token  int32   `json:"token,omitempty"`
+	SQL    string  `json:"sql"`
+	Call   int64   `json:"call"`
+	Ret    int64   `json:"ret"`
+	Err    string  `json:"err,omitempty"`
 	Rows   [][]any `json:"rows,omitempty"`
-	Done   bool   `json:"done"`
+	Done   bool    `json:"done"`
 }
 
 type ConRun struct {
-	Seed  uint64
-	Cfg   ConCfg
-	Dir   string
-	Res   simrt.Result
-	Hist  [][]conOp // per client
-	Viol  []Violation
-	Stats map[string]int
-	Final [][]any
+	Seed     uint64
+	Cfg      ConCfg
+	Dir      string
+	Res      simrt.Result
+	Hist     [][]conOp // per client
+	Viol     []Violation
+	Stats    map[string]int
+	Final    [][]any
 	SetupErr string
-	TxnHist json.RawMessage
+	TxnHist  json.RawMessage
 }
 
 func (cr *ConRun) stat(k string, n int) {
@@ -97,7 +117,7 @@ func (cr *ConRun) viol(prop, class, detail string) {
 
 func (cr *ConRun) simConfig() simrt.Config {
 	c := cr.Cfg
-	sc := simrt.Config{Seed: simrt.Mix(cr.Seed, 41), Policy: c.Policy, StickyP: c.StickyP, PCTDepth: c.PCTDepth, PCTHorizon: 30000,
+	sc := simrt.Config{Seed: simrt.Mix(cr.Seed, 41), Policy: c.Policy, StickyP: c.StickyP, PCTDepth: c.PCTDepth, PCTHorizon: pctHorizon(c.Workload),
 		MaxSteps: c.MaxSteps, DilateP: c.DilateP, DilateMax: 2_000_000_000, DrainSteps: 300_000, MaxVirtualNs: 6 * 3600 * 1_000_000_000}
 	if c.Replay != nil {
 		sc.Policy = simrt.PolReplay
@@ -188,6 +208,7 @@ func (cr *ConRun) runC12() {
 					op.Call = simrt.S.Steps()
 					cr.Hist[c] = append(cr.Hist[c], op)
 					idx := len(cr.Hist[c]) - 1
+					progressTick()
 					err, rows := s.DB.ExecuteSQL(op.SQL)
 					h := &cr.Hist[c][idx]
 					h.Ret = simrt.S.Steps()
@@ -216,7 +237,9 @@ func (cr *ConRun) runC12() {
 		s.closed = true
 	})
 	// (when the simulation was aborted the instance is abandoned: its latches may be held by killed tasks)
-	_ = s
+	if simrt.DumpStacks && cr.Res.Outcome != "ok" {
+		fmt.Fprint(os.Stderr, dumpLockTables(s.DB.GetSamehadaInstance().GetLockManager()))
+	}
 	cr.stat("steps", int(cr.Res.Steps))
 	cr.stat("decisions", int(cr.Res.Decisions))
 	cr.stat("preemptions", int(cr.Res.Preemptions))
@@ -232,9 +255,14 @@ func (cr *ConRun) check() {
 		cr.viol("C12", "no-progress:deadlock", fmt.Sprintf("deadlock after %d steps; tasks: %s", res.Steps, strings.Join(res.Blocked, "; ")))
 		return
 	case "step-limit", "time-limit", "task-limit":
-		// bounded progress is judged under the fair policies only: with no-wait locking an unfair
-		// scheduler can keep producing conflicts (the retried statement is always run before the lock holder)
-		if cr.Cfg.Policy == simrt.PolRandom || cr.Cfg.Policy == simrt.PolRoundRobin {
+		// bounded progress is judged under the uniformly random policy only: with no-wait locking and
+		// immediate retry an unfair scheduler can keep producing conflicts (the retried statement is always
+		// run before the lock holder), and so can a perfectly regular one (round-robin keeps two symmetric
+		// read-then-upgrade statements in lock step: both hold S, both fail to upgrade, both retry; seen
+		// for 12900 rounds) - only random choice breaks the symmetry, as a real scheduler's jitter does.
+		// ... and only for moderate contention: with dozens of callers on a handful of rows the retry
+		// storm of no-wait locking legitimately needs more steps than the budget
+		if cr.Cfg.Policy == simrt.PolRandom && cr.Cfg.Clients <= 12 {
 			cr.viol("C12", "no-progress:"+res.Outcome, fmt.Sprintf("%s under a fair scheduling policy after %d steps; tasks: %s", res.Outcome, res.Steps, strings.Join(firstN(res.Blocked, 12), "; ")))
 		} else {
 			cr.stat("inconclusive_no_progress_under_unfair_policy", 1)
@@ -462,6 +490,7 @@ func newConRun(seed uint64, cfg ConCfg, tag string) *ConRun {
 }
 
 func (cr *ConRun) run() {
+	progressTick()
 	switch cr.Cfg.Workload {
 	case "c12a", "c12b":
 		cr.runC12()
@@ -477,6 +506,8 @@ func workloadFor(prop string, r *rng) string {
 			return "c12a"
 		}
 		return "c12b"
+	case "C08":
+		return "txnwal"
 	case "C04", "C05":
 		return "txn"
 	case "C16":
@@ -542,7 +573,7 @@ func runConSim(run int, seed uint64) RunReport {
 		}
 		seen[v.Key()] = true
 		rf := ReplayFile{Property: v.Property, Driver: "consim", Seed: seed, Tier: flTier, Cfg: mustJSON(cr.Cfg), Schedule: cr.Res.Trace, Violation: v, OpsCount: len(cr.Res.Trace)}
-		if flMinimise && v.Property != "C19" {
+		if v.Property != "C19" && mayMinimise() {
 			if m := minimiseCon(cr, v); m != nil {
 				rf = *m
 			}
@@ -635,7 +666,7 @@ func replayConSim(rf *ReplayFile) (bool, string) {
 
 func (cr *ConRun) runOther() {
 	switch cr.Cfg.Workload {
-	case "txn":
+	case "txn", "txnwal":
 		cr.runTxn()
 	case "index":
 		cr.runIndex()
@@ -669,8 +700,17 @@ func (cr *ConRun) runTxn() {
 	tok := int32(1000)
 	nk := int32(rows)
 	nTxn := cfg.Clients
-	progs := genProgs(wr, nTxn, rows, &tok, &nk, wr.Chance(0.3))
+	wal := cfg.Workload == "txnwal"
+	progs := genProgs(wr, nTxn, rows, &tok, &nk, !wal && wr.Chance(0.3))
 	hist := make([]HTxn, nTxn)
+	var rec *disk.SimRecorder
+	heapPages := map[int32]bool{0: true, 1: true}
+	if wal && !raceEnabled {
+		rec = &disk.SimRecorder{}
+		disk.SimRec = rec
+		defer func() { disk.SimRec = nil }()
+		cfg.Frames = 3*3 + 6 + cfg.Clients
+	}
 	var final [][]any
 	var s *SUT
 	cr.Res = simrt.Run(cr.simConfig(), func() {
@@ -680,14 +720,31 @@ func (cr *ConRun) runTxn() {
 			cr.SetupErr = "open: " + pi.String()
 			return
 		}
-		if res := s.AutoSQL("CREATE TABLE t(k INT, v INT);"); !res.OK() {
+		ddl := "CREATE TABLE t(k INT, v INT);"
+		if wal {
+			ddl = "CREATE TABLE t(k INT, v INT, s VARCHAR(512));"
+		}
+		if res := s.AutoSQL(ddl); !res.OK() {
 			cr.SetupErr = "create"
 			return
 		}
 		for k := 1; k <= rows; k++ {
-			if res := s.AutoSQL(fmt.Sprintf("INSERT INTO t(k, v) VALUES (%d, %d);", k, k)); !res.OK() {
+			q := fmt.Sprintf("INSERT INTO t(k, v) VALUES (%d, %d);", k, k)
+			if wal {
+				q = fmt.Sprintf("INSERT INTO t(k, v, s) VALUES (%d, %d, '%s');", k, k, wr.Str(300))
+			}
+			if res := s.AutoSQL(q); !res.OK() {
 				cr.SetupErr = "insert"
 				return
+			}
+		}
+		if wal {
+			// filler rows behind the ones the programs touch: the heap spans several pages, so scans evict
+			for k := 1001; k <= 1040; k++ {
+				if res := s.AutoSQL(fmt.Sprintf("INSERT INTO t(k, v, s) VALUES (%d, %d, '%s');", k, k, wr.Str(350))); !res.OK() {
+					cr.SetupErr = "insert filler"
+					return
+				}
 			}
 		}
 		if wr.Chance(0.5) {
@@ -705,7 +762,8 @@ func (cr *ConRun) runTxn() {
 				}
 				for j, st := range progs[i].Stmts {
 					hs := HStmt{Idx: j, St: st, Call: simrt.S.Steps()}
-					r := t.Exec(st.SQL())
+					progressTick()
+					r := execPStmt(t, st)
 					hs.Ret = simrt.S.Steps()
 					if r.Panic != nil {
 						panic(st.SQL() + ": " + r.Panic.String())
@@ -731,7 +789,13 @@ func (cr *ConRun) runTxn() {
 					pe = t.Abort()
 					h.Outcome = "aborted"
 				} else {
+					wrote := int64(0)
+					if len(t.Txn.GetWriteSet()) > 0 {
+						wrote = 1
+					}
+					disk.SimMark("commit-called", t.ID(), wrote)
 					pe = t.Commit()
+					disk.SimMark("commit-returned", t.ID(), wrote)
 					h.Outcome = "committed"
 				}
 				h.EndRet = simrt.S.Steps()
@@ -742,6 +806,24 @@ func (cr *ConRun) runTxn() {
 		}
 		for _, t := range tasks {
 			simrt.S.Join(t)
+		}
+		if rec != nil {
+			// heap pages of t (for M-WAL), read without recording
+			func() {
+				defer func() { recover() }()
+				tm := s.Cat.GetTableByName("t")
+				pid := tm.Table().GetFirstPageID()
+				for n := 0; pid.IsValid() && n < 1000; n++ {
+					heapPages[int32(pid)] = true
+					pg := s.Shi.GetBufferPoolManager().FetchPage(pid)
+					if pg == nil {
+						break
+					}
+					next := int32(binary.LittleEndian.Uint32(pg.Data()[12:16]))
+					s.Shi.GetBufferPoolManager().UnpinPage(pid, false)
+					pid = types.PageID(next)
+				}
+			}()
 		}
 		rowsF, _, r := s.ScanHeap("t")
 		if r.OK() {
@@ -758,6 +840,21 @@ func (cr *ConRun) runTxn() {
 	cr.stat("outcome:"+cr.Res.Outcome, 1)
 	hj, _ := json.Marshal(hist)
 	cr.TxnHist = hj
+	if rec != nil && cr.Res.Outcome == "ok" {
+		wv, wst := walMonitor(nil, rec.Events, heapPages, -1)
+		cr.stat("wal_page_writes", wst.PageWrites)
+		cr.stat("wal_heap_page_writes", wst.HeapPageWrites)
+		cr.stat("wal_log_writes", wst.LogWrites)
+		cr.stat("wal_commits_checked", wst.CommitsChecked)
+		seenW := map[string]bool{}
+		for _, v := range wv {
+			if seenW[v.Class] {
+				continue
+			}
+			seenW[v.Class] = true
+			cr.Viol = append(cr.Viol, Violation{Property: "C08", Class: v.Class + "@concurrent", Detail: v.Msg})
+		}
+	}
 	switch cr.Res.Outcome {
 	case "deadlock":
 		cr.viol("C12", "no-progress:deadlock", strings.Join(firstN(cr.Res.Blocked, 12), "; "))
@@ -790,4 +887,12 @@ func firstN(xs []string, n int) []string {
 		return append(append([]string{}, xs[:n]...), fmt.Sprintf("... (+%d)", len(xs)-n))
 	}
 	return xs
+}
+
+func pctHorizon(workload string) int64 {
+	switch workload {
+	case "txn", "txnwal", "lock":
+		return 2500
+	}
+	return 6000
 }
